@@ -377,8 +377,13 @@ func q2(w *World, r *Report, reach *Reach, scope []*ssa.Function) {
 					continue
 				}
 				kind, desc := w.ledgerKind(a.Recv)
+				if kind == "live" && treeRead[a.Method] {
+					// a read of the live ledger answers with the latest committed state, whatever height was asked for
+					r.Violate("Q-2", fmt.Sprintf("%s:%s.%s:live-read", name, desc, a.Method), "a query reads the live ledger (the state of the latest block) instead of the view opened at the requested height", map[string]interface{}{"path": reach.Path(fn)}, site(w, c))
+					continue
+				}
 				if kind != "scratch" {
-					continue // live ledgers are decided by Q-1
+					continue // overlay methods of live ledgers are decided by Q-1
 				}
 				if strings.Contains(name, "ImmuAcctCtrler") {
 					// the EVM's scratch account handler works on its immutable ledger's own overlay
